@@ -632,6 +632,12 @@ def check_dict_guards(r, rule, nn, engine_functions=None):
                 seen.add(key)
                 r.rep.require(False, f"{q}:{getattr(e.node, 'lineno', 0)}: {show(d_, 30)}[{show(k_, 30)}] is read without a membership test, .get() or try / except KeyError around it; whether the key is always present cannot be decided [{rule}]")
                 continue
+            if pol is None and what == "create" and e.ctx.loops:
+                # d[key] = [..] inside the filling loop without a test that key is new: every further position overwrites the list
+                seen.add(key)
+                r.rep.ob(rule, q, False, "a new position list is created only under a key that is not in the dictionary yet", wh(r, q, e.node),
+                         expected=f"{show(k_, 30)} not in {show(d_, 30)}", found="no membership test of this key around the store", key=f"dict guard create-unguarded {q}:{show(k_, 30)}", lint=True)
+                continue
             if pol is None:
                 continue          # no membership test on this path: the every-path / candidate rules speak about that
             seen.add(key)
@@ -675,6 +681,29 @@ def check_container_casts(r, rule, nn, engine_functions=None):
                              expected="ensure_numpy(container) / np.asarray(container) without a fixed-width dtype", found=show(x, 100), key=f"fixed-width cast {show(d, 40)}", lint=True)
 
 
+def _check_site_collection(r, prop, nn, st, label, mode):
+    """The collection a triplet is inserted into is the one the function hands to _make_output (an insertion into some other list is a lost pair)."""
+    if st.coll is None or st.kind not in ("append", "add"):
+        return
+    s = nn.summary(st.q)
+    outs = [strip(e["term"])[2][0] for e in s.calls(MOD + "_make_output") if strip(e["term"])[2]]
+    if not outs and label == "kdtree-worker":
+        outs = [s.ret]          # a worker hands its triplets back as its return value
+    if not outs:
+        return
+    names = lambda t: {x[2] for x in walk(("t", t)) if head(x) in ("phi", "after") and isinstance(x[2], str)}
+    nc, no = names(st.coll), set().union(*[names(o) for o in outs])
+    if nc and not no and all((head(strip(o)) in ("list", "set") and not strip(o)[1]) or ((is_call(strip(o), "builtins.set") or is_call(strip(o), "builtins.list")) and not strip(o)[2]) for o in outs):
+        # what is handed to _make_output is still the empty collection it was created as: the insertions went elsewhere
+        r.rep.ob(prop + "-GLUE", f"{st.q}#{label}@{MODE_NAME[mode]}", False, "triplets are inserted into the collection that is returned", wh(r, st.q, st.node),
+                 expected="insertion into the collection handed to _make_output", found=f"insertion into {', '.join(sorted(nc))}; _make_output receives an empty {show(outs[0], 20)}", key=f"{label}/{MODE_NAME[mode]} site collection")
+        return
+    if not nc or not no:
+        return          # not name-carried collections (comprehension results, helper returns): nothing to compare
+    r.rep.ob(prop + "-GLUE", f"{st.q}#{label}@{MODE_NAME[mode]}", bool(nc & no), "triplets are inserted into the collection that is returned", wh(r, st.q, st.node),
+             expected=f"insertion into {', '.join(sorted(no))}", found=f"insertion into {', '.join(sorted(nc))}", key=f"{label}/{MODE_NAME[mode]} site collection")
+
+
 def check_make_output_sites(r, rule, functions=None):
     """Every _make_output call hands over (triplets, the caller's output_type, the reference collection, the query collection)."""
     from ..nnabs import lits as _lits
@@ -709,7 +738,7 @@ def check_make_output_sites(r, rule, functions=None):
                 qry_ok = qry == "SEQS2"
             # the first argument must not be one of the other API quantities (a swapped call)
             first_role = nn.R._role_of(fq, a[0]) if a else None
-            if first_role in ("OT", "SEQS", "SEQS2"):
+            if first_role is not None:       # the triplets are computed here; an API quantity in their place is a mixed-up call
                 rep.ob(rule, fq, False, "the result is shaped by the reference collection (rows) and the query collection (columns) and by the caller's output_type", wh(r, fq, e.node),
                        expected="_make_output(triplets, output_type, seqs, seqs2)", found=show(c, 90), key=f"make_output site {fq}")
                 continue
@@ -817,6 +846,7 @@ def run_fga(r, prop, cds, labels=None, floor=None):
                     # encode as an implied threshold literal understood by check_site
                     st.extra.setdefault("bfs", []).append((kind, T))
             check_site_ext(r, prop, nn, st, mode, sa, sb, policy, eqlen, label)
+            _check_site_collection(r, prop, nn, st, label, mode)
             if label == "LookupDB.lookup" and policy == "flag" and prop != "C03":
                 # hash_based searches one collection against itself and asks for the self-exclusion: the lookup has to honour the switch
                 r.rep.ob(prop + "-GLUE", f"{st.q}#{label}@{MODE_NAME[mode]}", bool(st.extra.get("flagged")), "under the self-exclusion switch a position is never reported as its own neighbour",
